@@ -209,6 +209,7 @@ type Exec struct {
 	curFnName   string
 	epochCtr    int
 	instDone    map[string]int
+	freeCells   map[string]*Cell // captured variables of a closure verified stand-alone
 	pruneMs     int64
 	pruneN      int
 	pruned      int
@@ -774,6 +775,25 @@ func (x *Exec) loopArrive(st *State, fr *Frame, lp *loop, head *ssa.BasicBlock, 
 	if entering {
 		phase = "establish"
 	}
+	if lc != nil && lc.Ordered != nil && entering {
+		o := x.oblig(fmt.Sprintf("%s/loop%d.ordered", fname, lp.ordinal), "order", x.propsFor(fr, lc.Ordered), lp.pos, lc.Ordered.Text)
+		overMap := false
+		for blk := range lp.blocks {
+			for _, in := range blk.Instrs {
+				if nx, ok := in.(*ssa.Next); ok && !nx.IsString {
+					// is this Next the iterator of THIS loop (in its header)?
+					if blk == lp.head {
+						overMap = true
+					}
+				}
+			}
+		}
+		if overMap {
+			x.check(st, o, "false")
+		} else {
+			x.check(st, o, "true")
+		}
+	}
 	if lc != nil {
 		for _, inv := range lc.Invariants {
 			name := fmt.Sprintf("%s/loop%d.invariant#%d.%s", fname, lp.ordinal, inv.Ord, phase)
@@ -790,7 +810,11 @@ func (x *Exec) loopArrive(st *State, fr *Frame, lp *loop, head *ssa.BasicBlock, 
 		for _, ens := range lc.Ensures {
 			name := fmt.Sprintf("%s/loop%d.iteration-ensures#%d", fname, lp.ordinal, ens.Ord)
 			o := x.oblig(name, "loop-iteration", x.propsFor(fr, ens), lp.pos, ens.Text)
-			goal, err := x.evalClause(x.loopEnv(st, fr, lp), ens)
+			le := x.loopEnv(st, fr, lp)
+			if lp.endPos.IsValid() {
+				le.pos = lp.endPos
+			}
+			goal, err := x.evalClause(le, ens)
 			if err != nil {
 				x.unbound(o, err)
 				continue
